@@ -225,6 +225,23 @@ fn run_c08(c: &MCase) -> Outcome {
             o.fail("pieces-do-not-cover-read", format!("read {}: pieces hold {} k-mers, read has {}", ascii(r), covered, r.len() - k + 1));
         }
     }
+    // the deprecated simple_scan must assign the same intervals and the same bucket ids as msp_sequence
+    if p <= 8 {
+        let np = 1usize << (2 * p);
+        let full_perm: Vec<usize> = perm.clone().unwrap_or_else(|| (0..np).collect());
+        for r in reads.iter().filter(|r| r.len() >= k) {
+            #[allow(deprecated)]
+            let ss: Vec<(usize, usize, u32)> = with_p!(p, P => simple_scan::<_, P>(k, &DnaSlice(r), &full_perm, c.mrc).into_iter().map(|m| (m.start(), m.len(), m.bucket() as u32)).collect());
+            let ms: Vec<(u32, u8, S)> = with_p!(p, P => pieces::<P, DnaBytes>(k, r, perm.as_deref(), c.mrc));
+            o.transitions += 1;
+            let mut start = 0usize;
+            let chain: Vec<(usize, usize, u32)> = ms.iter().map(|(b, _, piece)| { let x = (start, piece.len(), *b); start = start + piece.len() - (k - 1); x }).collect();
+            if ss != chain {
+                o.fail("simple-scan-bucket-differs", format!("read {} (p={} k={} perm={} rc={}): simple_scan gives (start, len, bucket) {:?}, msp_sequence {:?}", ascii(r), p, k, c.perm, c.mrc, ss, chain));
+                break;
+            }
+        }
+    }
     for (key, bs) in &bucket_of {
         if bs.len() != 1 {
             o.fail("kmer-in-several-buckets", format!("k-mer {} (p={} k={} perm={} rc={}) is emitted under buckets {:?}", ascii(key), p, k, c.perm, c.mrc, bs));
@@ -433,7 +450,7 @@ fn plan_c08(quick: bool, rep: &mut Report) {
     for (sig, det, case) in fails.into_iter().take(10) {
         rep.violation(vcommon::report::Violation { signature: sig, case, detail: det });
     }
-    rep.rule = "msp_sequence: P in {Kmer2, Kmer3, Kmer4} x k = p+1..p+3(4) x EVERY read of length k..Lmax (plus each read's reverse complement as a second read when rc mode is on) and every ordered pair of short reads x permutations {default, reversed, rotation, affine, 2 LCG} x containers {DnaBytes, DnaString, Lmer1, Lmer2, Lmer3} x rc mode on/off (star design around the default); oracle: one bucket per (canonical) k-mer over the whole read set, pieces are the chained exact substrings overlapping by k-1, extensions are the flanking bases; plus structured reads for P in {5, 6, 8, 10}, k up to 64, including low-complexity reads and every k-mer also as a read of its own".into();
+    rep.rule = "msp_sequence: P in {Kmer2, Kmer3, Kmer4} x k = p+1..p+3(4) x EVERY read of length k..Lmax (plus each read's reverse complement as a second read when rc mode is on) and every ordered pair of short reads x permutations {default, reversed, rotation, affine, 2 LCG} x containers {DnaBytes, DnaString, Lmer1, Lmer2, Lmer3} x rc mode on/off (star design around the default); oracle: one bucket per (canonical) k-mer over the whole read set, pieces are the chained exact substrings overlapping by k-1, extensions are the flanking bases, the deprecated simple_scan reports the same intervals and bucket ids; plus structured reads for P in {5, 6, 8, 10}, k up to 64, including low-complexity reads and every k-mer also as a read of its own".into();
     rep.floor("all-reads/P2:two_or_more_buckets", 1);
     rep.floor("all-reads/P3:palindromic_kmer", 1);
 }
